@@ -24,7 +24,10 @@ def _discharge(run, obls, what):
     if canary_ok is False:
         run.fault("canary of %s not refuted: contract vacuous or engine unsound" % what)
     if n == 0:
-        run.fault("zero obligations generated for %s" % what)
+        # nothing but canaries: fine when the reason is on record (parts of the function were undecided on this tree: the bounded stand-in decides),
+        # a checker fault when nothing explains it (vacuity guard)
+        if run.undecided: run.notes.append("no obligation generated for %s beyond canaries (undecided parts on record): decided by the bounded stand-in" % what)
+        else: run.fault("zero obligations generated for %s" % what)
 
 
 def child_curr(run):
